@@ -132,5 +132,13 @@ OptCombos(a) ==
     LET OI == OptIdx(a)
         subsets == IF Cardinality(OI) <= 6 THEN SUBSET OI ELSE {S \in SUBSET OI : Cardinality(S) <= 2 \/ Cardinality(OI \ S) <= 2}
     IN {FoldLeft(LAMBDA rec, i : Absent(rec, a.fs[i]), RichAlt(a, RichFuel), SetToSeq(S)) : S \in subsets}
+\* two factors at a time (thorough tier): every pair of fields, each taking two non-base values of its own variation set,
+\* around the zero base and around the rich base
+Two(S) == IF Cardinality(S) <= 2 THEN S ELSE LET a == CHOOSE x \in S : TRUE IN {a, CHOOSE y \in S \ {a} : TRUE}
+PairVary(a, base) ==
+    LET n == Len(a.fs)
+        alt(i) == Two(Vary(a.fs[i].t) \ {base[a.fs[i].name]})
+    IN UNION {{[base EXCEPT ![a.fs[i].name] = x, ![a.fs[j].name] = y] : x \in alt(i), y \in alt(j)} : i \in 1..n, j \in 1..n} \ {base}
+PairValues(nm) == UNION {PairVary(Schema[nm][i], BaseAlt(Schema[nm][i])) \cup PairVary(Schema[nm][i], RichAlt(Schema[nm][i], RichFuel)) : i \in 1..Len(Schema[nm])}
 TopValues(nm) == Values(nm) \cup UNION {RichVary(Schema[nm][i]) \cup OptCombos(Schema[nm][i]) : i \in 1..Len(Schema[nm])}
 =============================================================================
